@@ -1,7 +1,7 @@
 (* Props/C09.v — Mandatory structure is enforced and the error names the culprit.
    Property theorems only. *)
 
-From SwiftMT Require Import Base.Bytes Engine.Layout Engine.Tokens Engine.Facts Engine.Instance Engine.Extract Engine.Factor Engine.FactorInstance Engine.Regex Engine.Abs Engine.AbsSound Engine.Total Engine.AbsInstance Engine.AbsResult gen.Specs.
+From SwiftMT Require Import Base.Bytes Engine.Layout Engine.Tokens Engine.Facts Engine.Instance Engine.Extract Engine.Factor Engine.FactorInstance Engine.Regex Engine.Abs Engine.AbsSound Engine.Total Engine.AbsInstance Engine.AbsResult gen.Specs Engine.AbsBytes.
 
 Lemma layout_dropfree : forall T L, In (T, L) all_layouts -> dropfree L = true.
 Proof.
@@ -79,6 +79,16 @@ Theorem C09_left_out_deletions_are_ambiguous :
                             (snd p)) spec_deletions_ambiguous = true.
 Proof. exact left_out_deletions_are_ambiguous. Qed.
 
+(* the same for the byte-level cursor on canonical texts *)
+Theorem C09_missing_mandatory_element_is_rejected_bytes : forall T L ds what D,
+  lookup T all_layouts = Some L -> lookup T spec_deletions = Some ds ->
+  In (what, D) ds -> pair_mem (T, what) deletion_open = false ->
+  forall crlf fparse w toks, aws w = true -> forallb tok_ok toks = true ->
+  matches D (map fst toks) -> Forall (good_token fparse L) toks ->
+  forall f, lsize L + List.length toks + 1 <= f ->
+  exists e, brun fparse f L (w ++ render crlf toks) = Reject e /\ reject_ok fparse toks e.
+Proof. exact deletion_rejected_bytes. Qed.
+
 Print Assumptions C09_rejection_names_culprit.
 Print Assumptions C09_mandatory_missing.
 Print Assumptions C09_bad_content_mandatory.
@@ -87,3 +97,4 @@ Print Assumptions C09_rejection_names_culprit_bytes.
 Print Assumptions C09_missing_mandatory_element_is_rejected.
 Print Assumptions C09_rejection_analysis_is_sound.
 Print Assumptions C09_left_out_deletions_are_ambiguous.
+Print Assumptions C09_missing_mandatory_element_is_rejected_bytes.
